@@ -541,6 +541,11 @@ CASTLE_FENS = ["r3k2r/pppppppp/8/8/8/8/PPPPPPPP/R3K2R w KQkq - 0 1", "r3k2r/8/8/
                "rnbqk2r/pppp1ppp/5n2/2b1p3/2B1P3/5N2/PPPP1PPP/RNBQK2R w KQkq - 4 4", "r3k2r/Pppp1ppp/1b3nbN/nP6/BBP1P3/q4N2/Pp1P2PP/R2Q1RK1 w kq - 0 1"]
 
 
+CASTLE_CHECK_FENS = ["4k2r/8/8/8/8/8/4P1P1/4NKN1 w k - 0 1", "r3k3/8/8/8/8/8/2P1P3/2NKN3 w q - 0 1",
+                     "4nkn1/4p1p1/8/8/8/8/8/4K2R b K - 0 1", "2nkn3/2p1p3/8/8/8/8/8/R3K3 b Q - 0 1",
+                     "4k2r/8/8/8/8/8/4P1P1/4NKN1 w k - 0 30", "4nkn1/4p1p1/8/8/8/8/8/4K2R w K - 0 1"]
+
+
 def check_c17(tier, replay=None):
     t0 = time.time()
     T = tier == "thorough"
@@ -574,8 +579,14 @@ def check_c17(tier, replay=None):
                 if rng.random() < 0.3:
                     tags = tags[:rng.randrange(1, len(tags))] + ([["FEN", fen], ["SetUp", "1"]] if fen != START_FEN else [])
                     tags = [list(x) for x in dict((a, b) for a, b in tags).items()]
-                games.append({"fen": fen, "plies": rng.choice([0, 1, 2, 7, 20, 40, 80, 120] if T else [0, 1, 2, 7, 20, 40]), "tags": tags,
-                              "clk": rng.random() < 0.5, "marks": rng.random() < 0.3, "result": res})
+                castle = False
+                if rng.random() < 0.2:
+                    # castling that gives check (the king it checks is boxed in on the rook's file): `O-O+`, `O-O-O+` as ordinary movetext tokens
+                    fen = rng.choice(CASTLE_CHECK_FENS)
+                    castle = True
+                    tags = [t for t in tags if t[0] not in ("FEN", "SetUp")] + [["SetUp", "1"], ["FEN", fen]]
+                games.append({"fen": fen, "plies": rng.choice([0, 1, 2, 7, 20, 40, 80, 120] if T else [0, 1, 2, 7, 20, 40]) if not castle else rng.choice([2, 3, 4, 7]),
+                              "tags": tags, "clk": rng.random() < 0.5, "marks": rng.random() < 0.3, "castle": castle, "result": res})
             specs.append({"games": games, "tail": rng.choice(["\n", "\n", "", "\n\n"])})
         sched = None
     # (C) TLC plays legal games and renders the databases
